@@ -12,6 +12,7 @@ import (
 	"go/ast"
 	"go/parser"
 	"go/token"
+	"hash/fnv"
 	"log"
 	"os"
 	"runtime/debug"
@@ -21,6 +22,7 @@ import (
 	"verifsim/simmap"
 	"verifsim/simos"
 	"verifsim/simrt"
+	"verifsim/simtask"
 )
 
 // Case is one simulated invocation (possibly repeated in the same process).
@@ -45,6 +47,8 @@ type Case struct {
 	// optimised, and compared with a freshly parsed, optimised, built one.
 	RebuildVariant int `json:"rebuild_variant,omitempty"`
 	RebuildFailAt  int `json:"rebuild_fail_at,omitempty"`
+	// SchedSalt distinguishes the immediate repeats of one case (set by Serve).
+	SchedSalt uint64 `json:"-"`
 	// StepCap bounds the instrumentation steps (function entries and loop
 	// iterations of pigeon's own packages) one run may take; 0 = no bound.
 	StepCap int64 `json:"step_cap,omitempty"`
@@ -81,6 +85,7 @@ type Run struct {
 	StderrFull    []byte             `json:"stderr_full,omitempty"`
 	FilesFull     map[string][]byte  `json:"files_full,omitempty"`
 	Steps         int64              `json:"steps"`
+	Sched         simtask.Stats      `json:"sched"`
 	StepCapHit    bool               `json:"step_cap_hit,omitempty"`
 }
 
@@ -111,6 +116,11 @@ func RunOnce(mainFn func(), c *Case) (r Run) {
 		stepCap = 1 << 62
 	}
 	cl := simrt.Solo(stepCap)
+	// goroutines, channels and timers of the instrumented packages (none on the
+	// pinned tree) are scheduled from this seed and nothing else
+	h := fnv.New64a()
+	h.Write([]byte(c.ID))
+	simtask.Reset(h.Sum64() ^ c.MapSeed*0x9e3779b97f4a7c15 ^ uint64(c.MapMode)<<56 ^ (c.SchedSalt+1)*0xbf58476d1ce4e5b9)
 	func() {
 		defer func() {
 			if e := recover(); e != nil {
@@ -131,6 +141,7 @@ func RunOnce(mainFn func(), c *Case) (r Run) {
 		mainFn()
 	}()
 	r.Steps, r.StepCapHit = cl.Steps, cl.Aborted
+	r.Sched = simtask.Snapshot()
 	cl.Cap = 1 << 62 // whatever still runs (deferred work of a later case) is not charged to this one
 	r.ExitCalled = w.Exited
 	r.Exit = w.ExitCode
@@ -204,6 +215,7 @@ func Serve(mainFn func(), rebuild RebuildFunc) {
 			res.Runs = runRebuild(rebuild, &c)
 		} else {
 			for i := 0; i < n; i++ {
+				c.SchedSalt = uint64(i)
 				res.Runs = append(res.Runs, RunOnce(mainFn, &c))
 			}
 		}
@@ -272,6 +284,10 @@ func unresolvedMethods(src []byte) string {
 func runRebuild(rebuild RebuildFunc, c *Case) (runs []Run) {
 	simos.Reset(append([]string{"pigeon"}, c.Args...), c.Stdin, c.Files, c.Dirs, simos.NoFaults())
 	simmap.Configure(c.MapMode, c.MapSeed, true)
+	simrt.Solo(1 << 62)
+	h := fnv.New64a()
+	h.Write([]byte(c.ID))
+	simtask.Reset(h.Sum64() ^ c.MapSeed*0x9e3779b97f4a7c15 ^ uint64(c.MapMode)<<56)
 	g := c.Stdin
 	if b, ok := c.Files["grammar.peg"]; ok {
 		g = b
